@@ -71,6 +71,8 @@ def build_pop(spec, dt, share=None):
     for j, c in enumerate(spec['conns']):
         W = c['W'] if not isinstance(c['W'], list) else np.array(c['W'])
         d = (c['dsteps'] + c['eps']) * dt if c.get('dsteps') else c.get('delay')
+        if c.get('int_delay'):
+            d = int(c['int_delay'])
         ekw = {}
         if c.get('coup'):
             k_ = c['coup']['kind']
@@ -137,7 +139,14 @@ class C09(Check):
             if cfg['prelude'] and rng.random() < 0.5:
                 # another circuit made of the same population / connectivity objects was compiled before
                 cfg['prelude']['same_object'] = True
-            return {'spec': gen_pop(rng, multi=stratum == 'S-conn-multi'), 'cfg': cfg}
+            spec = gen_pop(rng, multi=stratum == 'S-conn-multi')
+            delayed = [c_ for c_ in spec['conns'] if c_.get('dsteps')]
+            if delayed and rng.random() < 0.15:
+                # a delay of exactly one time unit typed as an int (delays=1) at a step size well below 1
+                cfg['dt'] = rng.choice([0.5, 0.25, 0.125, 0.1])
+                c_ = rng.choice(delayed)
+                c_.update({'int_delay': 1, 'dsteps': int(round(1 / cfg['dt'])), 'eps': 0.0})
+            return {'spec': spec, 'cfg': cfg}
         p_delay = 1.0 if stratum in ('S-alldelayed',) else 0.55
 
         def delays(r):
@@ -193,6 +202,15 @@ class C09(Check):
             # feature interaction: coupling operators (EdgeTemplates) on DELAYED edges - the edge delivers what its operator
             # computed from the values of round(d/dt) steps ago, and nothing before that
             models.add_edge_templates(rng, spec, p=0.6, delayed=True)
+        if stratum in ('S-alldelayed', 'S-mixed') and not spec.get('circuits') and rng.random() < 0.15:
+            # the delay of one edge reaches the compiler through the documented `edge_values` keyword (the template's edge
+            # dictionary carries only the weight)
+            pairs = [(e[0], e[1]) for e in spec['edges']]
+            cand = [i for i, e in enumerate(spec['edges']) if e[2].get('delay') and pairs.count((e[0], e[1])) == 1]
+            if cand:
+                cfg['ev_edge'] = rng.choice(cand)
+                cfg['vectorize'] = False
+                cfg['prelude'] = None
         if stratum == 'S-hub':
             spec = self.gen_hub(rng, dt)
             cfg['vectorize'] = rng.random() < 0.8
@@ -320,6 +338,7 @@ class C09(Check):
         dt, steps = cfg['dt'], cfg['steps']
         T = steps * dt
         kw = {}
+        ev_kw = {}
         if cfg.get('sparseness') is not None:
             kw['matrix_sparseness'] = cfg['sparseness']
         pop = spec.get('kind') == 'pop'
@@ -352,6 +371,13 @@ class C09(Check):
                     if (cfg.get('prelude') or {}).get('same_object'):
                         spec['build'] = 'python'
                         c = models.build(spec, pool=shared_objs)
+                    elif cfg.get('ev_edge') is not None and cfg['ev_edge'] < len(spec['edges']) \
+                            and spec['edges'][cfg['ev_edge']][2].get('delay'):
+                        sb = copy.deepcopy(spec)
+                        e_ = sb['edges'][cfg['ev_edge']]
+                        ev_kw = {'edge_values': {(e_[0], e_[1]): {'delay': e_[2].pop('delay')}}}
+                        c = models.build(sb)
+                        bump('delay_via_edge_values')
                     else:
                         c = models.build(spec)
                 net = models.RefNet(spec)
@@ -402,6 +428,7 @@ class C09(Check):
                 except Exception:
                     pass
         try:
+            kw.update(ev_kw)
             if cfg['mode'] == 'run':
                 skw = {'sampling_step_size': cfg['m'] * dt} if cfg.get('m', 1) > 1 else {}
                 if skw:
